@@ -1398,15 +1398,37 @@ func c19GapHeaderVersion(c *rep.Ctx) {
 		c.Undecide("header-version", "types.BlockHeaderInfo", "struct not found")
 		return
 	}
+	// rootOf: the root object of a getter / selector chain, looking through once-defined locals
+	// ( hdr := b.GetHeader(); hdr.GetBlockNo()  has root b )
+	var rootOf func(f *an.Func, e ast.Expr, depth int) types.Object
+	rootOf = func(f *an.Func, e ast.Expr, depth int) types.Object {
+		info := f.Info()
+		r := c19GapRoot(info, e)
+		if r == nil || depth > 4 {
+			return r
+		}
+		if v, isVar := r.(*types.Var); isVar && !v.IsField() {
+			if rhs, _ := f.Graph().SingleDef(r); rhs != nil {
+				if r2 := rootOf(f, rhs, depth+1); r2 != nil {
+					return r2
+				}
+			}
+		}
+		return r
+	}
 	blockNoOf := func(f *an.Func, e ast.Expr, root types.Object) bool {
 		info := f.Info()
 		e = c19GapResolve(f, e)
-		return containsCallTo(info, e, "types.(*BlockHeader).GetBlockNo", "types.(*Block).BlockNo") && c19GapRoot(info, e) == root && root != nil
+		isNo := containsCallTo(info, e, "types.(*BlockHeader).GetBlockNo", "types.(*Block).BlockNo")
+		if fv := an.FieldOf(info, e); fv != nil && fv.Name() == "BlockNo" {
+			isNo = true
+		}
+		return isNo && rootOf(f, e, 0) == root && root != nil
 	}
 	chainIDOf := func(f *an.Func, e ast.Expr, root types.Object) bool {
 		info := f.Info()
 		e = c19GapResolve(f, e)
-		if c19GapRoot(info, e) != root || root == nil {
+		if rootOf(f, e, 0) != root || root == nil {
 			return false
 		}
 		if containsCallTo(info, e, "types.(*BlockHeader).GetChainID") {
